@@ -73,6 +73,37 @@ def part_table(sh, res):
     res.sample({'backend': 'query_table', 'header': [names[lo], names[(lo + 7) % len(names)]], 'queries': [q[1] for q in queries_for(names[lo], 0)]})
 
 
+def part_table_js(sh, res):
+    """the same all-pairs exploration through rbql-js query_table"""
+    from vf import js
+    if not js.available():
+        res.feat('js_skipped')
+        return
+    names = [n for n in all_names() if not excluded(n)]
+    lo, hi = sh['lo'], sh['hi']
+    batch, meta = [], []
+    for i, n1 in enumerate(names):
+        if not (lo <= i < hi):
+            continue
+        for n2 in names:
+            if n1 == n2:
+                continue
+            for pos, hdr in ((0, [n1, n2]), (1, [n2, n1])):
+                for label, text, p in queries_for(n1, pos):
+                    batch.append({'op': 'query', 'query': text, 'input': ROWS, 'input_names': hdr})
+                    meta.append((label, text, p, hdr))
+    outs = js.run_batch(batch)
+    for (label, text, p, hdr), out in zip(meta, outs):
+        got = qcheck.js_got(out)
+        res.states += 1
+        res.transitions += 1
+        if judge(res, label, text, got, p, {'backend': 'js-table', 'header': hdr, 'query': text}):
+            res.feat('js_table_' + label)
+            if not IDENT.match(hdr[p]):
+                res.nontrivial += 1
+    res.sample({'backend': 'rbql-js query_table', 'queries': len(batch)})
+
+
 def subset_pairs(full):
     names = [n for n in all_names() if not excluded(n)]
     singles = names[:len(ATOMS)]
@@ -442,6 +473,9 @@ def run_shard(sh):
     if sh['part'] == 'with_js':
         part_with_js(sh, res)
         return res
+    if sh['part'] == 'table_js':
+        part_table_js(sh, res)
+        return res
     {'table': part_table, 'backends': part_backends, 'positions': part_positions, 'hnd': part_header_not_data, 'with': part_with}[sh['part']](sh, res)
     return res
 
@@ -451,6 +485,7 @@ def main(tier, seed):
     T = tier == 'thorough'
     names = [n for n in all_names() if not excluded(n)]
     shards = [{'part': 'table', 'lo': lo, 'hi': hi} for lo, hi in core.chunks(len(names), 64)]
+    shards += [{'part': 'table_js', 'lo': lo, 'hi': hi} for lo, hi in core.chunks(len(names), 32)]
     npairs = len(subset_pairs(T))
     shards += [{'part': 'backends', 'full': T, 'lo': lo, 'hi': hi} for lo, hi in core.chunks(npairs, 32)]
     shards += [{'part': 'positions', 'ntriple': 12 if T else 8}, {'part': 'hnd'}, {'part': 'with'}, {'part': 'with_js'}]
@@ -462,7 +497,7 @@ def main(tier, seed):
         assumptions=['names containing an a.ident / b.ident token are excluded (the quantifier)', 'the name inside a["..."] is written with the canonical escapes (backslash, quote, \\n, \\r, \\t)'],
         extra={'names': len(names), 'backend_pairs': npairs},
         min_features={'table_dq': 50000, 'table_sq': 50000, 'table_attr': 500, 'csv_dq': 300, 'pandas_dq': 300, 'sqlite_dq': 300, 'csv_join': 300, 'direct_mode_bare': 50, 'triples': 100, 'header_not_data': 20,
-                      'with_overrides_opposite_flag': 50, 'variable_like_names': 300, 'fstring_names': 40, 'js_with_override': 100, 'position_update': 100})
+                      'with_overrides_opposite_flag': 50, 'variable_like_names': 300, 'fstring_names': 40, 'js_table_dq': 50000, 'js_table_sq': 50000, 'js_with_override': 100, 'position_update': 100})
 
 
 def replay(rep):
